@@ -181,7 +181,117 @@ fn run<const N: usize>(s: &mut Summary, v: &V) {
     s.monitor("final ledger", fin.iter().all(|x| x.0 == 1 && x.1 == 1), "each value dropped exactly once overall");
 }
 
+// ---- the same behaviours with a zero-sized element type: identities are not observable, counts are
+thread_local! {
+    /// (created, dropped) of the zero-sized element type
+    static ZLEDGER: std::cell::Cell<(u32, u32)> = std::cell::Cell::new((0, 0));
+}
+pub struct Z;
+impl Z {
+    fn new() -> Z {
+        ZLEDGER.with(|c| { let (a, b) = c.get(); c.set((a + 1, b)); });
+        Z
+    }
+}
+impl Clone for Z {
+    fn clone(&self) -> Z {
+        CLONE_BOMB.with(|b| match b.get() {
+            Some(0) => { b.set(None); panic!("Z::clone bomb"); }
+            Some(k) => b.set(Some(k - 1)),
+            None => {}
+        });
+        Z::new()
+    }
+}
+impl Drop for Z {
+    fn drop(&mut self) {
+        ZLEDGER.with(|c| { let (a, b) = c.get(); c.set((a, b + 1)); });
+    }
+}
+enum ObjZ<const N: usize> {
+    C(ArrayConsumer<Z, N>),
+    B(ArrayBuilder<Z, N>),
+    None,
+}
+
+fn run_zst<const N: usize>(s: &mut Summary, v: &V) {
+    ZLEDGER.with(|c| c.set((0, 0)));
+    let mut caller: Vec<Z> = Vec::new();
+    let mut objs: [ObjZ<N>; 2] = [ObjZ::None, ObjZ::None];
+    objs[0] = if v["start"] == json!("consumer") {
+        ObjZ::C(ArrayConsumer::new(std::array::from_fn(|_| Z::new())))
+    } else {
+        ObjZ::B(ArrayBuilder::new())
+    };
+    let ix = |nm: &V| if nm == &json!("a") { 0 } else { 1 };
+    for st in v["path"].as_array().unwrap() {
+        let i = ix(&st["o"]);
+        let op = st["op"].as_str().unwrap();
+        match op {
+            "next" | "next_back" | "next_none" => {
+                if let ObjZ::C(c) = &mut objs[i] {
+                    let r: Option<ManuallyDrop<Z>> = if op == "next_back" { c.next_back() } else { c.next() };
+                    match (r, op) {
+                        (Some(x), "next") | (Some(x), "next_back") => caller.push(ManuallyDrop::into_inner(x)),
+                        (None, "next_none") => {}
+                        (Some(x), _) => { caller.push(ManuallyDrop::into_inner(x)); s.monitor("ArrayConsumer<ZST>::next", false, "value from an empty consumer"); }
+                        (None, _) => { s.monitor("ArrayConsumer<ZST>::next", false, "None from a non-empty consumer"); return; }
+                    }
+                }
+            }
+            "clone" => {
+                let n = match &objs[i] { ObjZ::C(c) => ObjZ::C(c.clone()), ObjZ::B(b) => ObjZ::B(b.clone()), ObjZ::None => ObjZ::None };
+                objs[1 - i] = n;
+            }
+            "drop" => { objs[i] = ObjZ::None; }
+            "clone_panic" => {
+                set_clone_bomb(Some(st["j"].as_u64().unwrap() as u32));
+                let r = std::panic::catch_unwind(std::panic::AssertUnwindSafe(|| match &objs[i] {
+                    ObjZ::C(c) => drop(c.clone()),
+                    ObjZ::B(b) => drop(b.clone()),
+                    ObjZ::None => {}
+                }));
+                set_clone_bomb(None);
+                s.monitor("Clone<ZST> with a panicking T::clone", r.is_err(), "the panic propagates");
+            }
+            "assert_is_empty" => {
+                if let ObjZ::C(c) = std::mem::replace(&mut objs[i], ObjZ::None) { c.assert_is_empty(); }
+            }
+            "push" => { if let ObjZ::B(b) = &mut objs[i] { b.push(Z::new()); } }
+            "build" => {
+                if let ObjZ::B(b) = std::mem::replace(&mut objs[i], ObjZ::None) { caller.extend(b.build()); }
+            }
+            _ => panic!("unknown Ownership op {op}"),
+        }
+    }
+    for (k, tag, exp) in [(0usize, "a", &v["a"]), (1usize, "b", &v["b"])] {
+        let n = match &objs[k] { ObjZ::C(c) => c.as_slice().len(), ObjZ::B(b) => b.as_slice().len(), ObjZ::None => 0 };
+        s.check(&format!("{tag}/ZST: window length"), json!(n), &json!(exp["win"].as_array().unwrap().len()));
+    }
+    s.check("ZST: values handed to the caller (count)", json!(caller.len()), &json!(v["handed"].as_array().unwrap().len()));
+    let (created, dropped) = ZLEDGER.with(|c| c.get());
+    s.check("ZST: values created", json!(created), &v["created"]);
+    let exp_dropped: u64 = v["dropped"].as_array().unwrap().iter().map(|x| x.as_u64().unwrap()).sum();
+    s.check("ZST: number of values dropped at this state", json!(dropped), &json!(exp_dropped));
+    drop(objs);
+    drop(caller);
+    let (created, dropped) = ZLEDGER.with(|c| c.get());
+    s.monitor("ZST: final ledger", created == dropped, "each zero-sized value dropped exactly once overall");
+}
+
 pub fn replay(s: &mut Summary, v: &V) {
+    match v["n"].as_u64().unwrap() {
+        0 => run_zst::<0>(s, v),
+        1 => run_zst::<1>(s, v),
+        2 => run_zst::<2>(s, v),
+        3 => run_zst::<3>(s, v),
+        4 => run_zst::<4>(s, v),
+        n => panic!("unsupported N {n}"),
+    }
+    replay_sized(s, v)
+}
+
+fn replay_sized(s: &mut Summary, v: &V) {
     match v["n"].as_u64().unwrap() {
         0 => run::<0>(s, v),
         1 => run::<1>(s, v),
